@@ -28,7 +28,7 @@ def startObs (s : St) (asg : List (Nat × List Int)) : List Ob :=
   tps.zipIdx.map fun (tp, i) => .consumerStart (s.nextCid + i) tp.1 tp.2 s.gen s.member groupConsumerStartOffset
 
 def expectedSig (s : St) : Ev → List Ob
-  | .start => if s.started then [] else lookupSig s
+  | .start => if s.started || s.stopping then [] else lookupSig s
   | .fire id hbNext =>
     if hbNext.any (· < 0) then [] else
     match s.timers.filter (·.id == id) with
